@@ -1,3 +1,15 @@
+import Hannibal.Props.C11TCurrent
+import Hannibal.Proofs.C11TProj
+import Hannibal.Props.C11CCurrent
 import Hannibal.Props.C11Current
 #print axioms Hannibal.C11_holds
 #print axioms Hannibal.C11_current
+#print axioms Hannibal.C11c_holds
+#print axioms Hannibal.C11c_current
+#print axioms Hannibal.c11c_covers_next
+#print axioms Hannibal.c11c_covers_ret
+#print axioms Hannibal.C11t_holds
+#print axioms Hannibal.C11t_current
+#print axioms Hannibal.prun_run
+#print axioms Hannibal.monC11p_ok_imp_monC11t
+#print axioms Hannibal.monC11p_eq_monC11t_of_noRet
